@@ -21,7 +21,7 @@ from bibtexparser.model import Entry, Field, MiddlewareErrorBlock
 from bibtexparser.library import Library
 from checks import names_oracle as O
 
-SIGMA_PART = "Ab1 ,~"
+SIGMA_PART = "Ab1 ,~\x0b"
 SIGMA_BRACE = "Ab ,~{}\\'"
 
 
@@ -35,6 +35,19 @@ def drv(name):
 
 
 FIRST = "Aa Bb"      # a valid concrete first co-author: an invalid later name must not leave a half-converted list
+
+
+def drv_recall(name):
+    """a caller may edit the returned parts; a later split of the same name must not be affected"""
+    try:
+        p = N.parse_single_name_into_parts(name)
+    except N.InvalidNameError:
+        return None
+    keep = (list(p.first), list(p.von), list(p.last), list(p.jr))
+    p.first.append("edited")
+    p.last.clear()
+    q = N.parse_single_name_into_parts(name)
+    return keep, (q.first, q.von, q.last, q.jr)
 
 
 def drv_mw(name):
@@ -142,6 +155,33 @@ def task_fn(L, sigma, prefix=""):
     return rec.result(L=L, worlds=len(worlds))
 
 
+def task_recall(L, sigma, prefix=""):
+    eng = Engine()
+    rec = Recorder(eng)
+    s, g0 = sym_input(eng, L, sigma, prefix)
+    E = eng.I.models.eq_simple
+
+    def rp(m):
+        t = eng.model_str(m, s)
+        try:
+            r = drv_recall(t)
+        except Exception as e:  # noqa
+            return {"input": t, "observed": f"raised {type(e).__name__}: {e}", "expected": "parts"}
+        if r is None or [list(x) for x in r[0]] == [list(x) for x in r[1]]:
+            return None
+        return {"input": t, "observed": {"first call": r[0], "second call after editing the first result": r[1]}, "expected": "the same parts"}
+    worlds = eng.run(drv_recall, [s], guard=g0)
+    for W in worlds:
+        if W.exc is not None:
+            rec.require(W, True, "no-other-exception", rp)
+            continue
+        if W.result is None:
+            continue
+        keep, again = W.result
+        rec.require(W, b_not(E(list(keep), list(again))), "calls-are-independent", rp)
+    return rec.result(L=L, worlds=len(worlds))
+
+
 def task_mw(L, sigma, prefix=""):
     eng = Engine()
     eng.interpret_also(O.oracle, O.tokenize)
@@ -230,6 +270,8 @@ def main():
         spread("brace", task_fn, L, LB, SIGMA_BRACE)
     for L in range(LM, -1, -1):
         spread("mw", task_mw, L, LM, SIGMA_BRACE)
+    for L in range(5, 0, -1):
+        chk.add_task(f"recall-L{L}", task_recall, L=L, sigma=SIGMA_PART)
     chk.run()
 
 
